@@ -443,7 +443,11 @@ def MonState.observe (m : MonState) (op : Op) (evs : List String) (post : Option
                 if !homeReady && c.fb && (v.scStates.any fun p => p.2 == .ready) then fails := fails ++ [("C08", "fallback_places")]
               if !homeReady && !c.fb then hits := hits ++ ["pool.bound_key_waits_no_fallback"]
             | none => pure ()
-          | none => pure ()
+          | none =>
+            -- C03.3 at maxSize a call without a bound key is placed on the least-loaded channel of its picker,
+            -- even above the watermark: it is not told to wait for a channel that cannot be added
+            if !ready.isEmpty && evs.contains "nosc" && c.max != 0 && v.scRefs.length ≥ c.max then
+              fails := fails ++ [("C03", "at_max_places_anyway")]
       -- C08.4 / C01: a pick never changes bindings
       match post with
       | some pv => if pv.affinity != v.affinity then fails := fails ++ [("C08", "fallback_preserves_binding")]
